@@ -681,6 +681,32 @@ func (x *fnCtx) evalSpecCall(env *specEnv, e *SExpr) *Val {
 	return nil
 }
 
+// patternOK: triggers may contain only uninterpreted applications, selects/stores and leaves.
+func patternOK(t *Term) bool {
+	ok := true
+	seen := map[*Term]bool{}
+	var rec func(t *Term)
+	rec = func(t *Term) {
+		if seen[t] || !ok {
+			return
+		}
+		seen[t] = true
+		if t.Kind == KBuiltin && t.Op != "select" && t.Op != "store" {
+			ok = false
+			return
+		}
+		if t.Kind == KQuant {
+			ok = false
+			return
+		}
+		for _, a := range t.Args {
+			rec(a)
+		}
+	}
+	rec(t)
+	return ok
+}
+
 // findOffsetIndex finds T in an index expression (T + bv) used by a select/application.
 func findOffsetIndex(bv *Term, body *Term) *Term {
 	var found *Term
@@ -733,8 +759,7 @@ func autoPatterns(bv *Term, body *Term) []*Term {
 				direct = true
 			}
 		}
-		if direct && (t.Kind == KApp || (t.Kind == KBuiltin && t.Op == "select")) {
-			// avoid patterns that contain interpreted arithmetic
+		if direct && (t.Kind == KApp || (t.Kind == KBuiltin && t.Op == "select")) && patternOK(t) {
 			pats = append(pats, t)
 			return
 		}
